@@ -218,3 +218,73 @@ func VX_C19_ProxyPush(args []int) {
 	vxAssert(pst.Code() == erpc.CodeConnClosed, "[C15] closed-connection status still 102 after the proxied failure")
 	vxCover("c19.push")
 }
+
+func init() { vxRegister("VX_C19_Sequence", VX_C19_Sequence) }
+
+// VX_C19_Sequence: k proxied calls in a row on one caller session, each with a
+// solver-chosen backend outcome (OK with body and metadata / application error
+// with metadata / OK with an empty body / sender-side error code): every
+// caller reply equals what the backend answered for that very call - nothing
+// of an earlier proxied call shows. args: k
+func VX_C19_Sequence(args []int) {
+	k := args[0]
+	cli := erpc.NewPeer(erpc.PeerConfig{})
+	bconn := newVxConn("proxy:9", "backend:1")
+	bsess, st := cli.ServeConn(bconn)
+	vxAssume(st.OK())
+	fwd := &vxFwd{bsess}
+	front := erpc.NewPeer(erpc.PeerConfig{}, NewPlugin(func(*Label) Forwarder { return fwd }))
+	fconn := newVxConn("proxy:1", "caller:7")
+	_, st = front.ServeConn(fconn)
+	vxAssume(st.OK())
+	vxWaitIdle()
+	for j := 0; j < k; j++ {
+		tag := string(rune('a' + j))
+		seq := int32(20 + j)
+		kind := vxChoose("outcome", 4)
+		fconn.feed(vxFrame(erpc.TypeCall, seq, "/back/"+tag, []byte("req-"+tag), socket.WithAddMeta("q", tag)))
+		vxWaitIdle()
+		vxAssert(bconn.nWrites() == j+1, "each call is forwarded exactly once")
+		if bconn.nWrites() != j+1 {
+			return
+		}
+		fm, err := vxParse(bconn.writes[j])
+		vxAssert(err == nil && fm.ServiceMethod() == "/back/"+tag && string(vxBodyOf(fm)) == "req-"+tag, "forwarded with its own method and body")
+		if err != nil {
+			return
+		}
+		kv := vxMetaOf(fm)
+		vxAssert(vxGet(kv, "q") == tag && vxCountKey(kv, "q") == 1 && vxCountKey(kv, erpc.MetaRealIP) == 1, "forwarded with its own metadata and one real-IP entry")
+		var rs []socket.MessageSetting
+		body := []byte("ans-" + tag)
+		wantCode := int32(0)
+		switch kind {
+		case 1:
+			rs = append(rs, socket.WithStatus(erpc.NewStatus(1400+int32(j), "backend says "+tag, "")))
+			wantCode = 1400 + int32(j)
+			body = nil
+		case 2:
+			body = nil
+		case 3:
+			rs = append(rs, socket.WithStatus(erpc.NewStatus(104, "write failed at the backend "+tag, "")))
+			wantCode = erpc.CodeBadGateway
+			body = nil
+		}
+		rs = append(rs, socket.WithAddMeta("rk", "rv-"+tag))
+		bconn.feed(vxFrame(erpc.TypeReply, fm.Seq(), "", body, rs...))
+		vxWaitIdle()
+		vxAssert(fconn.nWrites() == j+1, "[C03] the caller gets exactly one reply per call")
+		if fconn.nWrites() != j+1 {
+			return
+		}
+		rm, err := vxParse(fconn.writes[j])
+		vxAssert(err == nil && rm.Seq() == seq && rm.Status(true).Code() == wantCode, "the caller receives the backend's status for this call (1xx => 502)")
+		if err != nil {
+			return
+		}
+		vxAssert(string(vxBodyOf(rm)) == string(body), "the caller receives the backend's body bytes for this call, nothing of an earlier one")
+		rkv := vxMetaOf(rm)
+		vxAssert(vxCountKey(rkv, "rk") == 1 && vxGet(rkv, "rk") == "rv-"+tag, "the caller receives the backend's reply metadata for this call (one value per key)")
+	}
+	vxCover("c19.sequence")
+}
